@@ -77,6 +77,9 @@ def dt_text(rnd, isT):
     import datetime
     lo = datetime.datetime(1900, 1, 1, tzinfo=datetime.timezone.utc)
     inst = lo + datetime.timedelta(days=rnd.randrange(109000), seconds=rnd.randrange(86400), milliseconds=rnd.randrange(1000))
+    if rnd.random() < 0.12:
+        # far from 1970 (open-ended "never expires" dates, historical records): every millisecond counts there too
+        inst = inst.replace(year=rnd.choice([1600, 1699, 2300, 4000, 9990]))
     off = rnd.choice([0, 0, -300, 330, -570, 60, -720, 840, rnd.randrange(-720, 841)])
     loc = inst.astimezone(datetime.timezone(datetime.timedelta(minutes=off)))
     date = "" if isT else loc.strftime("%Y%m%d")
